@@ -29,6 +29,7 @@ type C06Case struct {
 	Ref     string `json:"ref,omitempty"`     // which file reference is broken
 	Shape   string `json:"shape,omitempty"`   // missing | directory | dangling
 	Class   string `json:"class,omitempty"`   // invalid-setting class / cli scenario
+	Retry   string `json:"retry,omitempty"`   // source: package the same settings a second time (still-broken | repaired)
 	J       int    `json:"j,omitempty"`       // signer call that fails
 }
 
@@ -296,6 +297,13 @@ func enumC06(env *engine.Env, yield func(any) bool) {
 					if !yield(C06Case{Part: "source", Format: cc.f, Sign: cc.sign, Ref: r, Shape: sh}) {
 						return
 					}
+					if sh == "missing" && cc.comp == "" {
+						for _, rt := range []string{"still-broken", "repaired"} {
+							if !yield(C06Case{Part: "source", Format: cc.f, Sign: cc.sign, Ref: r, Shape: sh, Retry: rt}) {
+								return
+							}
+						}
+					}
 				}
 			}
 		}
@@ -394,6 +402,81 @@ func checkC06(env *engine.Env, ci any) engine.Outcome {
 			os.Symlink(filepath.Base(p), p) // a symlink to itself: ELOOP
 		case "directory":
 			os.Mkdir(p, 0o755)
+		}
+		if c.Retry != "" {
+			// the same effective settings are packaged again after the failure: while the source is still broken
+			// ("still-broken") or after it has been repaired ("repaired"). No call may report success for a package
+			// that lacks what the configuration denotes.
+			cfg, perr := parseYAML(d.YAML(), nil)
+			if perr != nil {
+				out.HarnessError = perr.Error()
+				return out
+			}
+			info, gerr := cfg.Get(f)
+			if gerr != nil {
+				out.HarnessError = gerr.Error()
+				return out
+			}
+			info = nfpm.WithDefaults(info)
+			pk, _ := nfpm.Get(f)
+			var b1 bytes.Buffer
+			err1 := pk.Package(info, &b1)
+			if c.Retry == "repaired" {
+				os.RemoveAll(p)
+				os.Rename(bak, p)
+			}
+			var b2 bytes.Buffer
+			err2 := pk.Package(info, &b2)
+			// the complete package: fresh settings while the source is intact (repaired case only)
+			var ref []byte
+			var rerr error = errors.New("source still broken")
+			if c.Retry == "repaired" {
+				ref, rerr = buildYAML(d.YAML(), f)
+				os.Rename(p, bak) // the deferred restore expects the backup
+			}
+			out.Nontrivial = err1 != nil
+			out.Transitions += 2
+			out.Key = fmt.Sprintf("retry:%s:%s:%s:%s:%s:err1=%v:err2=%v", f, c.Sign, c.Ref, c.Shape, c.Retry, err1 != nil, err2 != nil)
+			if err1 == nil {
+				return out // reported by the plain source part
+			}
+			if err2 != nil {
+				return out
+			}
+			// success on the second call: the package must be the complete one
+			// complete = ships the same payload entries and scripts as the package built from fresh settings (signatures
+			// differ from run to run, so bytes are not compared)
+			summary := func(b []byte) (string, bool) {
+				pkg, derr := pkgread.Decode(f, b, env.Tools)
+				if derr != nil {
+					return "", false
+				}
+				var l []string
+				for i := range pkg.Entries {
+					e := &pkg.Entries[i]
+					l = append(l, fmt.Sprintf("%s|%s|%d|%s", e.Path, e.Kind, len(e.Data), e.SHA256))
+				}
+				for k, v := range pkg.Scripts {
+					l = append(l, fmt.Sprintf("script:%s|%d", k, len(v)))
+				}
+				sortStrings(l)
+				return strings.Join(l, "\n"), true
+			}
+			complete := false
+			if rerr == nil {
+				a, ok1 := summary(ref)
+				b, ok2 := summary(b2.Bytes())
+				complete = ok1 && ok2 && a == b
+			}
+			if c.Retry == "still-broken" || !complete {
+				kind, _, _ := strings.Cut(c.Ref, ":")
+				n := -1
+				if pkg, derr := pkgread.Decode(f, b2.Bytes(), env.Tools); derr == nil {
+					n = len(pkg.Entries)
+				}
+				viol("fault:retry-reports-success:"+f+":"+kind+":"+c.Retry, "%s (%s) was %s: the first Package call on these settings failed (%v); the second call on the SAME settings (%s) returned nil and wrote %d bytes with %d payload entries, which is not the complete package (%d bytes)", c.Ref, p, c.Shape, err1, c.Retry, b2.Len(), n, len(ref))
+			}
+			return out
 		}
 		var buf bytes.Buffer
 		err := c06Build(d.YAML(), f, &buf, nil)
